@@ -99,6 +99,12 @@ type Config struct {
 	// NoFreeze removes the freeze deviation (deschedule the default thread
 	// until nothing else can run) from the alternatives of a scheduling point.
 	NoFreeze bool
+	// RacePoints (needs Race): plain accesses at the sites in RacySites are
+	// scheduling points; when an execution finds a race at a library site that
+	// is not in RacySites yet the exploration stops and reports the enlarged
+	// set in Stats.NewRacy, so that the caller restarts the instance with it.
+	RacePoints bool
+	RacySites  []string
 }
 
 // Failure is one violating execution.
@@ -110,6 +116,9 @@ type Failure struct {
 	Choices  []int    `json:"choices"`
 	Trace    []string `json:"trace,omitempty"`
 	Status   string   `json:"status"`
+	// RacySites: the plain-access sites that were scheduling points in this
+	// execution (needed to replay the choices).
+	RacySites []string `json:"racy_sites,omitempty"`
 }
 
 // Stats of one exploration.
@@ -126,6 +135,10 @@ type Stats struct {
 	MaxSteps       int            `json:"max_steps"`
 	Failures       []Failure      `json:"failures,omitempty"`
 	Infra          string         `json:"infra,omitempty"`
+	// NewRacy: racy library sites discovered that were not scheduling points
+	// yet (the statistics of this run are then to be discarded).
+	NewRacy   []string `json:"new_racy,omitempty"`
+	RacySites int      `json:"racy_sites"` // size of the set this run used
 }
 
 type explorer struct {
@@ -138,6 +151,8 @@ type explorer struct {
 	bound    int
 	timedOut bool
 	ndet     string
+	racy     map[string]bool // sites used as scheduling points
+	newRacy  map[string]bool
 }
 
 // Explore runs the scenario under every schedule with at most cfg.Bound
@@ -147,7 +162,12 @@ func Explore(cfg Config, sc Scenario) Stats {
 		cfg.Horizon = 20000
 	}
 	st := Stats{Instance: cfg.Name, Outcomes: map[string]int{}, BoundCompleted: -1, Exhaustive: true}
-	e := &explorer{cfg: cfg, sc: sc, st: &st, states: map[uint64]struct{}{}, traces: map[uint64]struct{}{}, failSeen: map[string]bool{}}
+	e := &explorer{cfg: cfg, sc: sc, st: &st, states: map[uint64]struct{}{}, traces: map[uint64]struct{}{}, failSeen: map[string]bool{},
+		racy: map[string]bool{}, newRacy: map[string]bool{}}
+	for _, s := range cfg.RacySites {
+		e.racy[s] = true
+	}
+	st.RacySites = len(e.racy)
 	if cfg.Race {
 		// addresses identify memory in the race oracle: no collection (hence no
 		// reuse) during an execution; collect explicitly between executions.
@@ -157,6 +177,15 @@ func Explore(cfg Config, sc Scenario) Stats {
 	for b := cfg.MinBound; b <= cfg.Bound; b++ {
 		e.bound = b
 		e.explore(nil, 0)
+		if len(e.newRacy) > 0 {
+			for s := range e.newRacy {
+				st.NewRacy = append(st.NewRacy, s)
+			}
+			sort.Strings(st.NewRacy)
+			st.Exhaustive = false
+			st.Failures = nil
+			break
+		}
 		if e.ndet != "" {
 			st.Infra = e.ndet
 			st.Exhaustive = false
@@ -196,7 +225,7 @@ func devs(points []pointRec, n int) int {
 var gcCounter int
 
 func (e *explorer) explore(prefix []int, used int) {
-	if e.timedOut || e.ndet != "" {
+	if e.timedOut || e.ndet != "" || len(e.newRacy) > 0 {
 		return
 	}
 	if !e.cfg.Deadline.IsZero() && time.Now().After(e.cfg.Deadline) {
@@ -207,6 +236,16 @@ func (e *explorer) explore(prefix []int, used int) {
 	if x.nondet != "" {
 		e.ndet = x.nondet
 		return
+	}
+	if e.cfg.RacePoints {
+		for s := range x.racyFound {
+			if !e.racy[s] {
+				e.newRacy[s] = true
+			}
+		}
+		if len(e.newRacy) > 0 {
+			return
+		}
 	}
 	// only count an execution in the iteration where it is new: it is new at
 	// bound b iff it uses exactly b deviations (bounds are iterated upwards).
@@ -268,6 +307,10 @@ func (e *explorer) run2(prefix []int, trace, noSpin bool) (*Exec, *End, string, 
 		now: time.Unix(1_700_000_000, 0)}
 	if x.raceOn {
 		x.shadow = map[uintptr]*shadow{}
+		x.racyFound = map[string]bool{}
+		if e.cfg.RacePoints && len(e.racy) > 0 {
+			x.racySites, x.racyPC = e.racy, map[uintptr]bool{}
+		}
 	}
 	if !trace {
 		x.statesFn = func(h uint64) { e.states[h] = struct{}{} }
@@ -327,7 +370,7 @@ func (e *explorer) confirm(x *Exec, end *End, tag, detail string) Failure {
 	for i, p := range x.points {
 		choices[i] = p.chosen
 	}
-	f := Failure{Instance: e.cfg.Name, Tag: tag, Detail: detail, Bound: devs(x.points, len(x.points)), Choices: choices, Status: end.Status.String()}
+	f := Failure{Instance: e.cfg.Name, Tag: tag, Detail: detail, Bound: devs(x.points, len(x.points)), Choices: choices, Status: end.Status.String(), RacySites: e.cfg.RacySites}
 	for i := 0; i < 5; i++ {
 		x2, _, tag2, _ := e.run2(choices, true, e.cfg.NoSpin)
 		if tag2 != tag {
@@ -356,7 +399,11 @@ func Replay(cfg Config, sc Scenario, choices []int) ([]string, *End, string, str
 	if cfg.Horizon == 0 {
 		cfg.Horizon = 20000
 	}
-	e := &explorer{cfg: cfg, sc: sc, st: &Stats{Outcomes: map[string]int{}}, states: map[uint64]struct{}{}, traces: map[uint64]struct{}{}}
+	e := &explorer{cfg: cfg, sc: sc, st: &Stats{Outcomes: map[string]int{}}, states: map[uint64]struct{}{}, traces: map[uint64]struct{}{},
+		racy: map[string]bool{}, newRacy: map[string]bool{}}
+	for _, s := range cfg.RacySites {
+		e.racy[s] = true
+	}
 	x, end, tag, detail := e.run(choices, true)
 	return x.trace, end, tag, detail
 }
